@@ -5,6 +5,7 @@ import (
 
 	"filippo.io/edwards25519"
 	"verifharness/gen"
+	"verifharness/raw"
 	"verifharness/ref"
 )
 
@@ -52,8 +53,12 @@ func C17(c *Ctx) {
 			continue
 		}
 		want := ref.Montgomery(m)
-		var got []byte
-		pv := catch(func() { got = pc.P.BytesMontgomery() })
+		var got, got2 []byte
+		var before [160]byte
+		if raw.PointOK() {
+			before = raw.PointBytes(pc.P)
+		}
+		pv := catch(func() { got = pc.P.BytesMontgomery(); got2 = pc.P.BytesMontgomery() })
 		e := ref.Encode(m)
 		c.Eval(!m.Eq(ref.Identity()), e[:], []byte(pc.Build))
 		c.tallyPoint(pc)
@@ -66,6 +71,14 @@ func C17(c *Ctx) {
 		if string(got) != string(want[:]) {
 			c.Fail("BytesMontgomery differs from (1+y)/(1-y)", det)
 			continue
+		}
+		if string(got2) != string(want[:]) {
+			det["second-call"] = hx(got2)
+			c.Fail("a second BytesMontgomery call on the same point returns something else", det)
+			continue
+		}
+		if raw.PointOK() && raw.PointBytes(pc.P) != before {
+			c.Fail("BytesMontgomery modified the point it encodes", det)
 		}
 		// P and -P agree
 		np := r.PointFor(ref.Neg(m), "neg")
